@@ -14,6 +14,8 @@ Translation scheme (DESIGN.md section 12):
 Anything outside the supported subset raises EmitError (-> GEN-ERROR)."""
 from .rparser import N, parse_macro_args, parse_matches_macro
 
+INLINED = []          # fn nodes inlined at a call site (read by tools/inventory.py)
+
 
 class EmitError(Exception):
     pass
@@ -2513,6 +2515,7 @@ class Emitter:
         """args: argument expressions, the receiver first when fn takes self.  recv_val: (term, type)
         of an already evaluated receiver."""
         key = (struct + "::" if struct else "") + fn.name
+        INLINED.append(fn)      # tools/inventory.py: this function's body is part of a translation
         stack = getattr(self, "inline_stack", [])
         if key in stack:
             raise EmitError("call of %s: recursive helper, cannot inline" % key)
